@@ -69,7 +69,7 @@ def parseSlice (j : Json) : Except String Slice := do
 /-- an argument as written in the case, before Element arguments are materialised -/
 inductive ArgSpec
   | plain (r : Raw)
-  | new (r : Option Raw) (rename : Option (Tree.Str × Nat))
+  | new (r : Option Raw) (rename : Option (Tree.Str × Nat)) (foreign : Bool)
   | pool (k : Nat)
 
 def parseArg (j : Json) : Except String ArgSpec := do
@@ -80,8 +80,9 @@ def parseArg (j : Json) : Except String ArgSpec := do
     let rn ← match rn0 with
       | none => pure none
       | some nm => pure (some (nm, ← nfld j "cid"))
-    if (fldD j "blank" (.bool false)) == .bool true then return .new none rn
-    return .new (some (← parseRaw v)) rn
+    let foreign := (fldD j "foreign" (.bool false)) == .bool true
+    if (fldD j "blank" (.bool false)) == .bool true then return .new none rn foreign
+    return .new (some (← parseRaw v)) rn foreign
   throw s!"bad arg {j.compress}"
 
 def excName : Exc → String
@@ -128,13 +129,15 @@ def reachWithContainer (root : Node) : List (Node × Option Nat) :=
 
 /-- after a call: elements that were reachable and no longer are, whose container still is,
     join the pool (in their old queue order) with the state they had -/
-def St.collectDetached (old : Node) (s : St) : St :=
+def St.collectDetached (old : Node) (detached : List Node) (s : St) : St :=
   let newIds := (reach [s.root]).map Node.id
   let oldEls := reachWithContainer old
   let gone := oldEls.filter (fun p => !newIds.contains p.1.id)
   let goneIds := gone.map (fun p => p.1.id)
   let top := gone.filter (fun p => match p.2 with | some c => !goneIds.contains c | none => false)
-  { s with pool := s.pool ++ top.map (·.1) }
+  -- the state an element had when it left (a call may set it in place first and replace it later)
+  let leftAs (e : Node) : Node := ((detached.flatMap nodes).find? (fun d => d.id == e.id)).getD e
+  { s with pool := s.pool ++ top.map (fun p => leftAs p.1) }
 
 /-- the class of an Element argument: member schema of a sequence, field schema for a key -/
 def neededSchema (target : Node) (key : Option Tree.Str) : Option Schema :=
@@ -153,15 +156,19 @@ def renameSchema (s : Schema) (nm : Tree.Str) (newCid : Nat) : Schema :=
 def mkArg (s : St) (target : Node) (key : Option Tree.Str) (a : ArgSpec) : Except String (Arg × St) :=
   match a with
   | .plain r => .ok (.plain r, s)
-  | .new r rn =>
+  | .new r rn foreign =>
     (match neededSchema target key with
      | none => .error "noschema"
      | some sch0 =>
        let sch := match rn with | some (nm, cid) => renameSchema sch0 nm cid | none => sch0
+       -- `foreign`: the element currently belongs to another container (an object outside the
+       -- tree, with an id of its own): its stored parent pointer is that container
+       let par : Option Nat := if foreign then some s.next else none
+       let nx := if foreign then s.next + 1 else s.next
        match r with
-       | none => let b := blank sch none [] s.next; .ok (.elem b.1, { s with next := b.2 })
+       | none => let b := blank sch par [] nx; .ok (.elem b.1, { s with next := b.2 })
        | some raw =>
-         match construct sch raw none [] s.next with
+         match construct sch raw par [] nx with
          | (.ok e, n1) => .ok (.elem e, { s with next := n1 })
          | (.error .unsupported, _) => .error "UNSUPPORTED"
          | (.error e, _) => .error ("argerr:" ++ excName e))
@@ -175,6 +182,13 @@ def mkArg (s : St) (target : Node) (key : Option Tree.Str) (a : ArgSpec) : Excep
           .ok (.elem e, { s with pool := s.pool.eraseIdx idx })
         else .error "pooltype"
       | _, _ => .error "nopool"
+
+def mkItemArgs (s : St) (target : Node) : List (Tree.Str × ArgSpec) → Except String (List (Tree.Str × Arg) × St)
+  | [] => .ok ([], s)
+  | (k, a) :: rest => do
+    let (x, s1) ← mkArg s target (some k) a
+    let (xs, s2) ← mkItemArgs s1 target rest
+    return ((k, x) :: xs, s2)
 
 def mkArgs (s : St) (target : Node) (key : Option Tree.Str) : List ArgSpec → Except String (List Arg × St)
   | [] => .ok ([], s)
@@ -193,6 +207,7 @@ inductive SeqSpec
 
 inductive MapSpec
   | setitem (k : Tree.Str) (a : ArgSpec)
+  | updateItems (items : List (Tree.Str × ArgSpec))
   | direct (o : MapOp)
 
 def parseSeqOp (j : Json) : Except String SeqSpec := do
@@ -246,6 +261,12 @@ def parseMapOp (j : Json) : Except String MapSpec := do
       | .ok p => pure (some (← parseRaw p))
       | .error _ => pure none
     return .direct (.update pos (← parseKvs (fldD j "kw" (Json.arr #[]))))
+  | "update_items" =>
+    let items ← (← afld j "items").mapM (fun p => do
+      match (← arr p) with
+      | [k, a] => pure ((← chars k), (← parseArg a))
+      | _ => throw "bad item")
+    return .updateItems items
   | "ior" => return .direct (.ior (← parseRaw (← fld j "v")))
   | "setdefault" => return .direct (.setdefault (← cfld j "k") (← parseRaw (← fld j "d")))
   | "get" => return .direct (.get (← cfld j "k"))
@@ -301,6 +322,7 @@ def materialise (s : St) (o : OpSpec) : Except String (Node × Op × St) := do
     match mp with
     | .direct op => return (target, .map op, s)
     | .setitem k a => let (x, s1) ← mkArg s target (some k) a; return (target, .map (.setitem k x), s1)
+    | .updateItems items => let (xs, s1) ← mkItemArgs s target items; return (target, .map (.updateArgs xs), s1)
 
 def outJson (s : St) : Out → Json
   | .ok => Json.str "ok"
@@ -317,6 +339,7 @@ def argElems : Op → List Node
   | .seq (.extend as) | .seq (.iadd as) | .seq (.setslice _ as) =>
     as.filterMap (fun a => match a with | .elem e => some e | _ => none)
   | .map (.setitem _ (.elem e)) => [e]
+  | .map (.updateArgs kvs) => kvs.filterMap (fun p => match p.2 with | .elem e => some e | _ => none)
   | _ => []
 
 structure StepObs where
@@ -336,7 +359,7 @@ def execOp (s : St) (o : OpSpec) : StepObs :=
     | some r =>
       let unsup := match r.out with | .exc .unsupported => true | _ => false
       let s2 : St := { s1 with root := r.node, next := r.next, unsupported := s1.unsupported || unsup }
-      let s3 := (s2.collectDetached s1.root).observe
+      let s3 := (s2.collectDetached s1.root r.detached).observe
       -- a returned object that was never reachable (cannot happen for the modelled calls) stays "?"
       let s4 := match r.out with
         | .node n => s3.see n.id
